@@ -498,6 +498,11 @@ Example grammar_members : forallb (in_class true) ex_dirs = true /\
   in_class false (mk_ddir None None [mk_fmatch [120] None] (Some Info)) = false.
 Proof. repeat split; vm_compute; reflexivity. Qed.
 
+Example grammar_members_wf : forallb (wf_d true) ex_dirs = true /\
+  wf_d false (mk_ddir None (Some [115; 112]) [mk_fmatch [120] (Some (VDebugLit [49; 97]))] (Some Debug)) = true /\
+  wf_d true (mk_ddir None (Some [115; 112]) [mk_fmatch [120] (Some (VDebugLit [49; 97]))] (Some Debug)) = false.
+Proof. repeat split; vm_compute; reflexivity. Qed.
+
 (** an integer written `-0` is read as I64(0) and printed as `0`, which is read as U64(0): outside [value_ok] *)
 Example noncanonical_integer :
   value_ok true (VI64 0) = false /\
